@@ -488,7 +488,7 @@ func c08Segmenter(args []string) error {
 		_ = os.MkdirAll(dir, 0755)
 		defer os.RemoveAll(dir)
 		inPath := filepath.Join(dir, "in.mp4")
-		if err := ioutil.WriteFile(inPath, buildMultiProg(c.Tracks, idx%3 == 1, false, false, false), 0644); err != nil {
+		if err := ioutil.WriteFile(inPath, buildMultiProg(c.Tracks, idx%3 == 1, false, false, false, false), 0644); err != nil {
 			return err
 		}
 		kinds := make([]string, len(c.Tracks))
